@@ -131,6 +131,18 @@ def gen_cases(rng, tier):
         x1, y1 = x0 + d * math.cos(a), y0 + d * math.sin(a)
         cases.append(("grad_px", [0, f2b(x0), f2b(y0), f2b(x1), f2b(y1), f2b(1.0), rng.randrange(3), int(rng.random() < 0.5),
                                   rng.randrange(2), rng.randrange(3), w, h] + ts + rand_stops(rng)))
+    # two-point conical gradients whose focal point lies within 1/4096 (relative) of the end circle, on either side: whichever
+    # formula is used, the pixels behind the focal point are undefined and must stay untouched
+    for i in range(40 if q else 500):
+        w, h = rng.choice([(24, 20), (33, 9), (40, 40)])
+        rad = rng.choice([8.0, 15.5, 28.28, 6.25])
+        eps = rng.choice([5e-5, 1e-4, 2e-4, 1.5e-4]) * rng.choice([1, 1, -1])
+        d = rad / (1.0 - eps)
+        a = rng.choice([0.0, math.pi / 4, math.pi / 2, rng.uniform(0, 6.28)])
+        x0, y0 = rng.uniform(4, w - 4), rng.uniform(4, h - 4)
+        x1, y1 = x0 + d * math.cos(a), y0 + d * math.sin(a)
+        cases.append(("grad_px", [2, f2b(x0), f2b(y0), f2b(x1), f2b(y1), f2b(rad), rng.randrange(3), int(rng.random() < 0.5), rng.randrange(2), rng.randrange(3), w, h]
+                      + list(IDENT) + rand_stops(rng)))
     # non-linear colour spaces (Paint::colorspace): opaque stops drawn with Source; the stops are expanded, interpolated in
     # linear light and the result compressed
     for i in range(150 if q else 2000):
